@@ -1,9 +1,13 @@
 (* Props/C14.v -- C14: diagnostics point at the offending token's line and column.
-   The theorems are about the lexer model (Lexer.v), for EVERY character sequence, name table and
-   classification of non-ASCII characters.  What is proved is where a token's location comes from;
-   that the assembler and the linker hand that location on unchanged to the message is checked by the
-   planted-fault oracle of lib/c14.py (not modelled). *)
-From Az65 Require Import Base Token Utf8 Lexer LexerFacts.
+   Theorems (1)-(6) are about the lexer model (Lexer.v), for EVERY character sequence, name table and
+   classification of non-ASCII characters: where a token's location comes from.  Theorems (7)-(12) follow
+   that location on: through the expression parser (ExprLoc.v: which token an operand, an assertion, a
+   mentioned symbol is located at), through the link step (LinkLoc.v: which record's location a link-time
+   diagnostic carries) and into the "Included from" chain (Trace.v).  That each directive and instruction
+   arm passes the location it got from `expr()` to the range check or the `Link` record it creates is not
+   modelled; it is checked by the planted-fault oracle and the located-expression correspondence of
+   lib/c14.py. *)
+From Az65 Require Import Base Token Expr CSpec ExprParse Utf8 Lexer LexerFacts Linker ExprLoc ExprLocFacts LinkLoc LinkLocFacts Trace TraceFacts.
 
 (* (1) Positions, defined without the state machine: the character that follows a prefix q is on line
        1 + (number of line breaks in q), at column 1 + (number of characters of q after its last line
@@ -56,8 +60,79 @@ Theorem C14_lex_fault_locations :
 Proof. exact lex_fault_locations. Qed.
 Print Assumptions C14_lex_fault_locations.
 
+(* (7) The located expression parser is the expression parser: with the locations erased it accepts, rejects
+       and builds exactly what ExprParse.ptree does (the parser of Props/C04.v), for every token list. *)
+Theorem C14_located_parser_is_the_parser :
+  forall ts, erase (lptree ts) = ptree (map fst ts).
+Proof. exact lptree_erase. Qed.
+Print Assumptions C14_located_parser_is_the_parser.
+
+(* (8) An expression is located at the first token it consumed (for `@sizeof LABEL`: at the label), whatever
+       follows - any operators, parentheses, nesting depth, line continuations - and every symbol it records
+       as mentioned is recorded at a label token of that spelling among the tokens it consumed.  This is the
+       location an out-of-range operand, a failing @assert and an undefined symbol are reported at. *)
+Theorem C14_expression_located_at_its_first_token :
+  forall ts e l ms r, lptree ts = LOk e l ms r ->
+    exists c, ts = c ++ r /\ lead_loc c = Some l /\ Forall (ment_in c) ms.
+Proof. exact lptree_located. Qed.
+Print Assumptions C14_expression_located_at_its_first_token.
+
+(* (9) The located link step is the link step (Props/C05.v, C06.v) with the locations erased ... *)
+Theorem C14_located_link_is_the_link :
+  forall st refs ls d, lerase (llink_all st refs ls d) = link_all st (map fst refs) (map ll_link ls) d.
+Proof. exact llink_all_erase. Qed.
+Print Assumptions C14_located_link_is_the_link.
+
+(* (10) ... a range / unsolvable / assertion failure found at link time carries the location of the first
+        record that fails, every record before it having been applied ... *)
+Theorem C14_link_diagnostic_at_first_failing_record :
+  forall st ls d k l, lapply_links st ls d = LkDiag k l ->
+    exists pre x post d',
+      ls = pre ++ x :: post /\ ll_loc x = l /\
+      apply_links st (map ll_link pre) d = Ok d' /\ apply_link st (ll_link x) d' = Diag k.
+Proof. exact link_diag_at_first_failing_link. Qed.
+Print Assumptions C14_link_diagnostic_at_first_failing_record.
+
+(* (11) ... and an undefined symbol the location at which the first unresolved name was touched. *)
+Theorem C14_undefined_symbol_at_its_touch :
+  forall st refs k l, lcheck_refs st refs = LkDiag k l ->
+    k = DkUndefined /\
+    exists pre r post, refs = pre ++ (r, l) :: post /\ ref_ok st r = false /\
+                       Forall (fun x => ref_ok st (fst x) = true) pre.
+Proof. exact undefined_at_first_unresolved_touch. Qed.
+Print Assumptions C14_undefined_symbol_at_its_touch.
+
+(* (12) The include chain: after any history of sources started (@include, macro invocation, @parse, @each)
+        and exhausted, the chain printed is exactly the list of sites still open, innermost first, the root
+        file not among them - and building it never unwraps a missing value. *)
+Theorem C14_include_chain_is_the_open_sites :
+  forall ops, trace (run_sources ops) = Ok (sites (run_sources ops)).
+Proof. exact trace_is_open_sites. Qed.
+Print Assumptions C14_include_chain_is_the_open_sites.
+
+Theorem C14_started_source_adds_innermost_frame :
+  forall st l fs, st <> [] -> trace st = Ok fs -> trace (sstep st (Push l)) = Ok (l :: fs).
+Proof. exact push_adds_innermost_frame. Qed.
+Print Assumptions C14_started_source_adds_innermost_frame.
+
 (* non-vacuity: "nop" / line break / " @db" -- the directive is at 2:2, the first line break at 1:4 *)
 Example C14_example :
   pos_after ([110; 111; 112; 10; 32] ++ [64]) = {| line := 2; col := 2 |} /\
   pos_after ([110; 111; 112] ++ [10]) = {| line := 1; col := 4 |}.
+Proof. split; vm_compute; reflexivity. Qed.
+
+(* non-vacuity of (8): `- ( foo + 1 )` then a line break: located at the minus sign, `foo` mentioned at its own token *)
+Example C14_example_expression :
+  let lc l c := {| line := l; col := c |} in
+  lptree [(TSym SyMinus, lc 3 7); (TSym SyLParen, lc 3 9); (TLabel LkGlobal [102; 111; 111]%N, lc 3 11);
+          (TSym SyPlus, lc 3 15); (TNumber 1, lc 4 2); (TSym SyRParen, lc 4 4); (TNewline, lc 4 5)]
+  = LOk (PUn UNeg (PBin BAdd (PLabel LkGlobal [102; 111; 111]%N) (PNum 1))) (lc 3 7)
+        [(LkGlobal, [102; 111; 111]%N, lc 3 11)] [(TNewline, lc 4 5)].
+Proof. vm_compute. reflexivity. Qed.
+
+(* non-vacuity of (12): root -> a.inc (included at 5:1) -> macro invoked at 2:3 of a.inc, then the macro ends *)
+Example C14_example_chain :
+  let a := {| fl_file := [109]%N; fl_loc := {| line := 5; col := 1 |} |} in
+  let b := {| fl_file := [97]%N; fl_loc := {| line := 2; col := 3 |} |} in
+  trace (run_sources [Push a; Push b]) = Ok [b; a] /\ trace (run_sources [Push a; Push b; Pop]) = Ok [a].
 Proof. split; vm_compute; reflexivity. Qed.
